@@ -429,9 +429,10 @@ def reality_pins(check, uni, model):
     for (kind, t, s) in uni.memo.get(('num_str_all',), []):
         v = model.eval(t, model_completion=True)
         if kind == 'f64':
-            bits = model.eval(z3.fpToIEEEBV(t), model_completion=True).as_long()
+            from mirsym.doc import fp_bits
+            bits = fp_bits(model, t)
             real = bytes(br.call(cmd='fmt', kind='f64', bits=bits)['text'])
-            same = z3.fpToIEEEBV(t) == z3.BitVecVal(bits, 64)
+            same = z3.fpIsNaN(t) if bits == 0x7ff8000000000000 else (z3.fpToIEEEBV(t) == z3.BitVecVal(bits, 64))
         else:
             n = v.as_long()
             if kind == 'i64':
